@@ -24,6 +24,7 @@ func init() {
 			"R5 when the header read fails, ReadMessage returns the read combinator's error itself (or a %w wrapping), so io.EOF between messages stays recognisable, and a failed body read returns a non-nil error; " +
 			"R6 read-path functions store to no package-level variable (no cursor carried between messages). " +
 			"R5 also: in every library function that calls the read path and tests its error, no path leads from the error edge of a message read back to a read of the same connection (after a failed or partial read the stream position is inside a message; reading on would attribute its bytes to another message), and the header decode error and the length-guard error are propagated. " +
+			"R5 also: the error of a body read is never returned unconverted — a full-read combinator reports io.EOF when the stream ends exactly where a body read starts (right after the header, at a chunk boundary), and handed on as it is a message cut short would read as a clean end of stream. " +
 			"With io.ReadFull's contract these imply the statement for every fragmentation; the fragmentation quantifier itself is discharged by that contract, not enumerated. Not decided: bufio.Reader internals, SCTP stream selection (C19).",
 		Rules: map[string]string{
 			"R1": "reader consumed only through full-read combinators with min = len(buffer)",
@@ -981,22 +982,64 @@ func (c *Ctx) c05Errors(headerSites, bodySites []readSite) {
 		// stream ends before the first byte of *this* read, which inside a body (chunk boundary, or right after
 		// the header) still is a message cut short — handed on as it is, it reads as a clean end of stream
 		if good {
+			// followed up the call chain: an unexported helper may hand the raw error to its caller, which then
+			// has to convert it; what must not happen is that it leaves the read path's entry point unconverted
 			var rawAt ssa.Instruction
-			flow.Instrs(s.fn, func(in ssa.Instruction) {
-				ret, ok := in.(*ssa.Return)
-				if !ok || len(ret.Results) == 0 || rawAt != nil {
+			var escapes func(fn *ssa.Function, src map[ssa.Value]bool, depth int)
+			escapes = func(fn *ssa.Function, src map[ssa.Value]bool, depth int) {
+				if rawAt != nil || depth > 3 {
 					return
 				}
-				last := ret.Results[len(ret.Results)-1]
-				if !isErrorType(last.Type()) {
+				// close over phis
+				for changed := true; changed; {
+					changed = false
+					flow.Instrs(fn, func(in ssa.Instruction) {
+						if ph, ok := in.(*ssa.Phi); ok && !src[ph] {
+							for _, x := range ph.Edges {
+								if src[x] {
+									src[ph] = true
+									changed = true
+								}
+							}
+						}
+					})
+				}
+				var rets []*ssa.Return
+				flow.Instrs(fn, func(in ssa.Instruction) {
+					ret, ok := in.(*ssa.Return)
+					if !ok || len(ret.Results) == 0 {
+						return
+					}
+					last := ret.Results[len(ret.Results)-1]
+					if !isErrorType(last.Type()) {
+						return
+					}
+					for _, sv := range flow.SpillSources(last) {
+						if src[sv] {
+							rets = append(rets, ret)
+							return
+						}
+					}
+				})
+				if len(rets) == 0 {
 					return
 				}
-				for _, src := range flow.SpillSources(last) {
-					if srcs[src] {
-						rawAt = ret
+				css := c.librarySites(fn)
+				if fn.Object() != nil && fn.Object().Exported() || len(css) == 0 {
+					rawAt = rets[0]
+					return
+				}
+				for _, cs := range css {
+					call, ok := cs.(*ssa.Call)
+					if !ok {
+						continue
+					}
+					if ev := errorResult(call); ev != nil {
+						escapes(cs.Parent(), map[ssa.Value]bool{ev: true}, depth+1)
 					}
 				}
-			})
+			}
+			escapes(s.fn, srcs, 0)
 			rkey := fmt.Sprintf("%s:body-read-error-not-eof@%s", fname(s.fn), s.kind)
 			if rawAt != nil {
 				r.Fail("R5", rkey, c.pos(rawAt), "the error of a body read is returned as it is: when the stream ends exactly where a body read starts (right after the header, or at a chunk boundary) that error is io.EOF, and a message cut short is reported as a clean end of the stream")
